@@ -366,17 +366,29 @@ func copyDenseIter(dst, src DenseTensor, diter, siter Iterator) (int, error) {
 		siter = FlatIteratorFromDense(src)
 	}
 
-	// if it's a masked tensor, we copy the mask as well
+	// if it's a masked tensor, we copy the mask as well. The mask is indexed by storage position like the data, so it
+	// travels through the same pairs of positions as the elements (copying it slot for slot left the mask of a
+	// materialised view as long as the view's storage window and attached to other elements)
 	if ms, ok := src.(MaskedTensor); ok && ms.IsMasked() {
 		if md, ok := dst.(MaskedTensor); ok {
-			dmask := md.Mask()
 			smask := ms.Mask()
-			if cap(dmask) < len(smask) {
-				dmask = make([]bool, len(smask))
-				copy(dmask, md.Mask())
-				md.SetMask(dmask)
+			dmask := md.Mask()
+			if n := dst.len(); len(dmask) != n {
+				dmask = make([]bool, n)
 			}
-			copy(dmask, smask)
+			for {
+				di, derr := diter.Next()
+				si, serr := siter.Next()
+				if derr != nil || serr != nil {
+					break
+				}
+				if di >= 0 && di < len(dmask) && si >= 0 && si < len(smask) {
+					dmask[di] = smask[si]
+				}
+			}
+			diter.Reset()
+			siter.Reset()
+			md.SetMask(dmask)
 		}
 	}
 	return storage.CopyIter(dst.rtype(), dst.hdr(), src.hdr(), diter, siter), nil
